@@ -31,6 +31,13 @@ struct Item {
     /// a packet the configuration phase tolerates, sent right before the hostile bytes (deviation bound 2)
     #[serde(default)]
     tolerated_first: Option<String>,
+    /// a fault of the transport instead of (reset: after) the hostile bytes: reset | write-zero | write-fail |
+    /// write-partial-zero | write-partial-fail (the write faults hit clientbound frame `fault_frame` of the
+    /// honest exchange: status exchange for state 1, login with slow routing for state 9)
+    #[serde(default)]
+    fault: Option<String>,
+    #[serde(default)]
+    fault_frame: usize,
 }
 
 #[derive(Clone)]
@@ -117,7 +124,7 @@ fn render_with(id: i32, parts: &[Part], k: usize, replacement: Vec<u8>) -> Vec<u
 fn items_for(state: usize, max: i32, thorough: bool) -> Vec<Item> {
     let mut v = vec![];
     let mut push = |class: &str, bytes: Vec<u8>, eof: bool, malformed: bool, refuse_now: bool| {
-        v.push(Item { state, max, class: class.into(), bytes_hex: hex(&bytes), eof, malformed, refuse_now, enc_secret_len: None, tolerated_first: None })
+        v.push(Item { state, max, class: class.into(), bytes_hex: hex(&bytes), eof, malformed, refuse_now, enc_secret_len: None, tolerated_first: None, fault: None, fault_frame: 0 })
     };
     // A. outer length alphabet: the prefix alone, then silence (out of range) or EOF (in range)
     let outer: Vec<(String, Vec<u8>, bool)> = vec![
@@ -225,11 +232,11 @@ fn items_for(state: usize, max: i32, thorough: bool) -> Vec<Item> {
     drop(push);
     if state == 6 {
         for n in [0usize, 1, 8, 15, 17, 24, 32, 100] {
-            v.push(Item { state, max, class: format!("valid-rsa-secret-len-{n}"), bytes_hex: String::new(), eof: true, malformed: true, refuse_now: false, enc_secret_len: Some(n), tolerated_first: None });
+            v.push(Item { state, max, class: format!("valid-rsa-secret-len-{n}"), bytes_hex: String::new(), eof: true, malformed: true, refuse_now: false, enc_secret_len: Some(n), tolerated_first: None, fault: None, fault_frame: 0 });
         }
     }
     let mut push = |class: &str, bytes: Vec<u8>, eof: bool, malformed: bool, refuse_now: bool| {
-        v.push(Item { state, max, class: class.into(), bytes_hex: hex(&bytes), eof, malformed, refuse_now, enc_secret_len: None, tolerated_first: None })
+        v.push(Item { state, max, class: class.into(), bytes_hex: hex(&bytes), eof, malformed, refuse_now, enc_secret_len: None, tolerated_first: None, fault: None, fault_frame: 0 })
     };
     // G. every [len][id][b] frame and two-byte bodies over a boundary alphabet, then EOF
     let ids: Vec<i32> = (0..=0x20).chain([0x7f]).collect();
@@ -272,6 +279,29 @@ fn build(it: &Item) -> Case {
     if it.eof {
         case.script.push(st(When::With, Act::Eof));
     }
+    match it.fault.as_deref() {
+        Some("reset") => case.script.push(st(When::With, Act::Reset)),
+        Some(f) if f.starts_with("write-") => {
+            // the honest exchange, undisturbed except for the transport's answer to one clientbound frame
+            case.script = if it.state == 1 {
+                vec![
+                    st(When::Idle, Act::Handshake { proto: 769, host: "h".into(), port: 25565, next: 1 }),
+                    st(When::Idle, Act::StatusRequest),
+                    st(When::Idle, Act::Ping(7)),
+                ]
+            } else {
+                prefix(9)
+            };
+            let mut prog = vec![];
+            if f.contains("partial") {
+                prog.push(WStep::Accept(2));
+            }
+            prog.push(if f.ends_with("zero") { WStep::Zero } else { WStep::Fail });
+            case.transport.writes.push(WriteDev { frame: it.fault_frame, prog });
+            case.adapters.disc_ms = 20_000;
+        }
+        _ => {}
+    }
     if it.state >= 9 {
         case.adapters.disc_ms = 40_000;
     }
@@ -293,7 +323,9 @@ fn judge(it: &Item, baseline_packets: usize, obs: &Obs) -> Vec<(String, String)>
         }
         return v;
     }
-    if obs.steps_done < prefix(it.state).len() + 1 + it.tolerated_first.is_some() as usize {
+    if it.fault.as_deref().is_some_and(|f| f.starts_with("write-")) {
+        // (the script is the honest exchange; how far it gets depends on the frame that is refused)
+    } else if obs.steps_done < prefix(it.state).len() + 1 + it.tolerated_first.is_some() as usize {
         // the hostile bytes were never sent (the prefix did not get that far): not a verdict
         bad("machinery:prefix-did-not-complete".into(), format!("state {st}: only {} steps done; result {:?}", obs.steps_done, obs.result));
         return v;
@@ -318,6 +350,25 @@ fn judge(it: &Item, baseline_packets: usize, obs: &Obs) -> Vec<(String, String)>
                 }
             }
         }
+    }
+    // (ii') a reset connection / a transport that takes no more bytes ends the handler at once, with an error
+    match it.fault.as_deref() {
+        Some("reset") => {
+            let at = obs.eof_at;
+            if matches!(obs.result, RunResult::Horizon) || at.is_some_and(|a| obs.end_ms != a) || !obs.result.is_err() {
+                bad("keeps-running-after-reset".into(), format!("state {st}: connection reset at {at:?} ms, handler ended at {} ms with {:?}", obs.end_ms, obs.result));
+            }
+        }
+        Some(f) if f.starts_with("write-") => match obs.write_fault_at {
+            // the exchange never got to that frame: nothing to judge
+            None => {}
+            Some(at) => {
+                if matches!(obs.result, RunResult::Horizon) || obs.end_ms != at || !obs.result.is_err() {
+                    bad(format!("keeps-running-after-write-failure:{f}"), format!("state {st}: the transport refused clientbound frame #{} at {at} ms ({f}); handler ended at {} ms with {:?}", it.fault_frame, obs.end_ms, obs.result));
+                }
+            }
+        },
+        _ => {}
     }
     // (iv) out-of-range outer length is refused before the body is awaited
     if it.refuse_now {
@@ -393,10 +444,32 @@ pub fn run(cli: Cli) -> ! {
             items.extend(its);
         }
     }
+    // transport faults: the connection is reset in every state (at a frame boundary and in the middle of every
+    // frame legal there); every clientbound frame of a status exchange and of a login with slow routing (cookie
+    // request ... Keep Alive, Store Cookie, Transfer) is refused by the transport, at once or after two bytes
+    for state in 0..N_STATES {
+        let mut pieces: Vec<Vec<u8>> = vec![vec![]];
+        for (id, parts) in packets(state) {
+            let honest = render(id, &parts);
+            pieces.push(honest[..1].to_vec());
+            pieces.push(honest[..honest.len() / 2].to_vec());
+            pieces.push(honest[..honest.len() - 1].to_vec());
+        }
+        for bytes in pieces {
+            items.push(Item { state, max: 10_000, class: "transport:reset".into(), bytes_hex: hex(&bytes), eof: false, malformed: false, refuse_now: false, enc_secret_len: None, tolerated_first: None, fault: Some("reset".into()), fault_frame: 0 });
+        }
+    }
+    for (state, frames) in [(1usize, 2usize), (9, 9)] {
+        for f in 0..frames {
+            for fault in ["write-zero", "write-fail", "write-partial-zero", "write-partial-fail"] {
+                items.push(Item { state, max: 10_000, class: format!("transport:{fault}"), bytes_hex: String::new(), eof: false, malformed: false, refuse_now: false, enc_secret_len: None, tolerated_first: None, fault: Some(fault.into()), fault_frame: f });
+            }
+        }
+    }
     // number of clientbound packets the honest prefix alone produces, per state
     let baseline: Vec<usize> = (0..N_STATES)
         .map(|s| {
-            let mut c = build(&Item { state: s, max: 10_000, class: String::new(), bytes_hex: String::new(), eof: false, malformed: false, refuse_now: false, enc_secret_len: None, tolerated_first: None });
+            let mut c = build(&Item { state: s, max: 10_000, class: String::new(), bytes_hex: String::new(), eof: false, malformed: false, refuse_now: false, enc_secret_len: None, tolerated_first: None, fault: None, fault_frame: 0 });
             c.script.truncate(prefix(s).len());
             c.horizon_ms = if s == 10 { 16_500 } else { 1 };
             crate::sim::run(&c).packets.len()
@@ -425,7 +498,7 @@ pub fn run(cli: Cli) -> ! {
     rep.set("distinct_nontrivial", json!(d));
     rep.set("states", json!(N_STATES));
     rep.set("exhaustive", json!(true));
-    rep.set("rule", json!("one hostile frame per run in each of 11 protocol states (the last: configuration phase, routing slow, the Keep Alive of the 16 s tick unanswered, hostile bytes at 17 s) x configured maximum {1,64,10000,2097151}: 10 outer length prefixes (alone, and followed by EOF), 8 inner length prefixes per length-prefixed field of every packet legal in the state, truncation of the honest frame at every byte offset + EOF, invalid UTF-8 per string, 4 out-of-range ordinals per enum, RSA ciphertext shapes, 9 well-formed Keep Alive frames with extreme ids in the configuration states, every [len][id][b] frame for id 0..0x20,0x7f and b 0..255 and 256 two-byte bodies. distinct_nontrivial = distinct (state, class, result)."));
+    rep.set("rule", json!("one hostile frame per run in each of 11 protocol states (the last: configuration phase, routing slow, the Keep Alive of the 16 s tick unanswered, hostile bytes at 17 s) x configured maximum {1,64,10000,2097151}: 10 outer length prefixes (alone, and followed by EOF), 8 inner length prefixes per length-prefixed field of every packet legal in the state, truncation of the honest frame at every byte offset + EOF, invalid UTF-8 per string, 4 out-of-range ordinals per enum, RSA ciphertext shapes, 9 well-formed Keep Alive frames with extreme ids in the configuration states, every [len][id][b] frame for id 0..0x20,0x7f and b 0..255 and 256 two-byte bodies; transport faults: the connection reset at a frame boundary and inside every legal frame of every state, and every clientbound frame of a status exchange and of a login with slow routing refused by the transport (Ok(0) or BrokenPipe, at once or after two bytes). distinct_nontrivial = distinct (state, class, result)."));
     rep.sample(json!({"item": items[0]}));
     rep.sample(json!({"item": items[items.len() / 2]}));
     rep.sample(json!({"item": items[items.len() - 1]}));
